@@ -38,11 +38,21 @@ def act_mass(kind):
 
 
 def action(I, w, name):
-    """Parse action *name* of formula_grammar as a closure (free variable: table)."""
-    f = I.src.func(f"formulas.formula_grammar.{name}")
-    fr = Frame(I, "formulas", "formulas.formula_grammar")
-    fr.vars["table"] = w.table
-    return Closure(f.node, "formulas", f.qual, fr)
+    """Parse action *name* of formula_grammar: the closure attached to the grammar that formula_grammar(table) builds
+    (so helpers local to formula_grammar are in its scope)."""
+    from ptstat import peg
+    cache = getattr(w, "_actions", None)
+    if cache is None:
+        gram = I.call(I.global_name("formulas", "formula_grammar"), [w.table], {})
+        cache = {}
+        for n in peg.Grammar(gram, I).nodes():
+            for fn in n.actions:
+                if isinstance(fn, Closure):
+                    cache[fn.qual.rsplit(".", 1)[-1]] = fn
+        w._actions = cache
+    if name not in cache:
+        raise AnalysisError(f"parse action {name} is not attached to the grammar built by formula_grammar")
+    return cache[name]
 
 
 def run(ctx):
